@@ -452,6 +452,50 @@ Proof.
   apply IH; [rewrite Hi, <- app_assoc; reflexivity|exact I'].
 Qed.
 
+(* ---- time passes with no reader (shutdown): cancelled parked instances return ---- *)
+Definition cancq (x : tinst) : bool := match ti_phase x with TSending => ti_cancelled x | TRunning => false | _ => true end.
+
+Lemma giveup_from_quiet : forall l pre s, tm_insts s = pre ++ l -> forallb quiet pre = true -> forallb cancq l = true ->
+  forallb quiet (tm_insts (tm_giveup_from (length pre) l s)) = true.
+Proof.
+  induction l as [|x l IH]; intros pre s Hs Hp Hl; cbn [tm_giveup_from].
+  - rewrite Hs, app_nil_r. exact Hp.
+  - cbn [forallb] in Hl. apply andb_true_iff in Hl. destruct Hl as [Hx Hl].
+    assert (Ex : nth_error (tm_insts s) (length pre) = Some x) by (rewrite Hs; apply nth_app_mid).
+    set (s' := match ti_phase x with TSending => if ti_cancelled x then tm_step s (TAbort (length pre)) else s | _ => s end).
+    assert (Hs' : exists x', tm_insts s' = pre ++ x' :: l /\ quiet x' = true).
+    { subst s'. unfold cancq in Hx. destruct (ti_phase x) eqn:Ep.
+      - exists x. split; [exact Hs|unfold quiet; rewrite Ep; reflexivity].
+      - exists x. split; [exact Hs|unfold quiet; rewrite Ep; reflexivity].
+      - discriminate.
+      - rewrite Hx. exists (set_phase TDone x). unfold tm_step. rewrite Ex, Ep, Hx. cbn [tm_insts]. rewrite Hs, upd_app_mid. split; reflexivity.
+      - exists x. split; [exact Hs|unfold quiet; rewrite Ep; reflexivity]. }
+    destruct Hs' as (x' & Hi & Hq).
+    replace (S (length pre)) with (length (pre ++ [x'])) by (rewrite app_length; cbn; lia).
+    apply IH.
+    + rewrite Hi, <- app_assoc. reflexivity.
+    + rewrite forallb_app, Hp. cbn. rewrite Hq. reflexivity.
+    + exact Hl.
+Qed.
+
+Lemma pinv_giveup_from : forall l pre s, tm_insts s = pre ++ l -> pinv s -> pinv (tm_giveup_from (length pre) l s).
+Proof.
+  induction l as [|x l IH]; intros pre s Hs I; cbn [tm_giveup_from]; [exact I|].
+  assert (Ex : nth_error (tm_insts s) (length pre) = Some x) by (rewrite Hs; apply nth_app_mid).
+  set (s' := match ti_phase x with TSending => if ti_cancelled x then tm_step s (TAbort (length pre)) else s | _ => s end).
+  assert (Hs' : (exists x', tm_insts s' = pre ++ x' :: l) /\ pinv s').
+  { subst s'. destruct (ti_phase x) eqn:Ep; try (split; [exists x; exact Hs|exact I]).
+    destruct (ti_cancelled x) eqn:Ec; [|split; [exists x; exact Hs|exact I]].
+    assert (E : tm_step s (TAbort (length pre)) = {| tm_handler := tm_handler s; tm_h := tm_h s; tm_v := tm_v s; tm_cur := tm_cur s;
+                  tm_insts := upd (tm_insts s) (length pre) (set_phase TDone); tm_delivered := tm_delivered s |})
+      by (unfold tm_step; rewrite Ex, Ep, Ec; reflexivity).
+    rewrite E. split; [exists (set_phase TDone x); cbn [tm_insts]; rewrite Hs, upd_app_mid; reflexivity|].
+    eapply (pinv_set_done s _ (length pre) x (set_phase TDone)); eauto. }
+  destruct Hs' as ((x' & Hi) & I').
+  replace (S (length pre)) with (length (pre ++ [x'])) by (rewrite app_length; cbn; lia).
+  apply IH; [rewrite Hi, <- app_assoc; reflexivity|exact I'].
+Qed.
+
 Lemma pinv_pstep s o : pinv s -> pinv (tm_pstep s o).
 Proof.
   intro I. destruct o; cbn [tm_pstep].
@@ -460,6 +504,7 @@ Proof.
   - apply pinv_settle; exact I.
   - apply pinv_fire_noreader; exact I.
   - unfold tm_resume. apply (pinv_resume_from (tm_insts s) [] s); [reflexivity|exact I].
+  - unfold tm_giveup. apply (pinv_giveup_from (tm_insts s) [] s); [reflexivity|exact I].
 Qed.
 
 Lemma pinv_run ops : pinv (fold_left tm_pstep ops tm_init).
@@ -491,3 +536,21 @@ Proof.
   - destruct I as [I|I]; [discriminate|]. repeat split; congruence.
   - repeat split; congruence.
 Qed.
+
+(* the shutdown case in full: whatever happened before, after Stop and with NO reader ever coming back, no goroutine of
+   the trigger stays parked in triggerElections *)
+Theorem shutdown_leaves_nothing_parked ops : tm_public_parked (ops ++ [PStop; PGiveUp]) = 0%nat.
+Proof.
+  unfold tm_public_parked. rewrite fold_left_app. cbn [fold_left tm_pstep].
+  destruct (pinv_stop _ (pinv_run ops)) as [I C]. set (s := tm_stop (fold_left tm_pstep ops tm_init)) in *.
+  apply parked_zero. unfold tm_giveup. apply (giveup_from_quiet (tm_insts s) [] s); [reflexivity|reflexivity|].
+  apply forallb_forall. intros x Hx. apply In_nth_error in Hx. destruct Hx as (i & Hi).
+  specialize (I i x Hi). rewrite C in I. unfold inst_ok in I. unfold cancq.
+  destruct (ti_phase x) eqn:Ep; try reflexivity.
+  - contradiction.
+  - destruct I as [I|I]; [discriminate|exact I].
+Qed.
+
+(* without the Stop an instance that fired while nobody reads stays parked: the Stop is what releases it *)
+Example parked_without_stop : tm_public_parked [PRegister 1 0; PFire; PGiveUp] = 1%nat /\ tm_public_parked [PRegister 1 0; PFire; PStop; PGiveUp] = 0%nat.
+Proof. split; vm_compute; reflexivity. Qed.
